@@ -11,6 +11,7 @@ import (
 	"fmt"
 	"runtime"
 	"sync"
+	"time"
 
 	eventbus "github.com/jilio/ebu"
 	"verif/vkit"
@@ -60,10 +61,10 @@ func accept(g map[string][]string, op Op) bool {
 }
 
 type harness struct {
-	bus     *eventbus.EventBus
-	store   *eventbus.MemoryStore
-	budget  int
-	calls   int // upcaster applications for the event being replayed
+	bus    *eventbus.EventBus
+	store  *eventbus.MemoryStore
+	budget int
+	calls  int // upcaster applications for the event being replayed
 }
 
 func (h *harness) upcaster(op Op) eventbus.UpcastFunc {
@@ -107,7 +108,29 @@ func (h *harness) replayAll() (nonTerminating string, err error) {
 	return "", err
 }
 
+// Run executes the case under a watchdog: registrations, clears and
+// single-goroutine replays never wait for anything, so a run that is still
+// going after 20 s - twice - has blocked (a registry lock that was never
+// released, for instance).
 func Run(c *Case) *vkit.Outcome {
+	var res *vkit.Outcome
+	if timedOut, _ := vkit.Watchdog(20*time.Second, func() { res = run(c) }); !timedOut {
+		return res
+	}
+	again, dump := vkit.Watchdog(20*time.Second, func() { res = run(c) })
+	if !again {
+		res.Class("slow_first_run_not_reproduced")
+		return res
+	}
+	if len(dump) > 6000 {
+		dump = dump[:6000]
+	}
+	o := &vkit.Outcome{}
+	o.Failf("", "a single-goroutine sequence of upcaster registrations, clears and upcasting replays did not finish within 20 s, twice: ops %+v; goroutines:\n%s", c.Ops, dump)
+	return o
+}
+
+func run(c *Case) *vkit.Outcome {
 	o := &vkit.Outcome{}
 	names := Names[:c.NName]
 	h := &harness{store: eventbus.NewMemoryStore(), budget: len(Names) + 2}
